@@ -115,8 +115,25 @@ fn label_of(id: &Id) -> u64 {
 const TAG_DATA: u8 = 0xD1;
 const TAG_TREE: u8 = 0x7E;
 
-fn ts(secs: i64) -> rustic_core::jiff::Timestamp {
-    rustic_core::jiff::Timestamp::from_second(secs).unwrap()
+/// Time stamps of the op lines are ONE integer per stamp (the model's `Option Int`): `seconds + (nanoseconds << 32)` with
+/// `0 <= seconds < 2^32`, `0 <= nanoseconds < 10^9` — an injective encoding of the full (second, nanosecond) pair, so
+/// "equal integers" on the model side is "equal to the nanosecond" on the real side.  Plain small values (every op line written
+/// before the sub-second generators existed) are whole seconds.
+pub const NS_SHIFT: u32 = 32;
+pub fn stamp(secs: i64, nanos: u32) -> i64 {
+    secs + (i64::from(nanos) << NS_SHIFT)
+}
+pub fn stamp_secs(v: i64) -> i64 {
+    v & ((1i64 << NS_SHIFT) - 1)
+}
+pub fn stamp_nanos(v: i64) -> i32 {
+    (v >> NS_SHIFT) as i32
+}
+pub fn ts(v: i64) -> rustic_core::jiff::Timestamp {
+    if v < 0 {
+        return rustic_core::jiff::Timestamp::from_second(v).unwrap();
+    }
+    rustic_core::jiff::Timestamp::new(stamp_secs(v), stamp_nanos(v)).unwrap()
 }
 
 fn real_node(n: &N) -> Node {
@@ -691,7 +708,7 @@ fn reads_back_as(h: &RepoHandle, snap: &rustic_core::repofile::SnapshotFile, src
             K::Link(t) => ("symlink", None, Some(t.clone())),
             K::Other(_) => ("other", None, None),
         };
-        exp.push((p, k.into(), c, l, Some(e.mtime)));
+        exp.push((p, k.into(), c, l, Some(stamp_secs(e.mtime))));
     }
     let mut gotv: Vec<_> = got.into_iter().map(|r| (r.path, r.kind, r.content, r.link, r.mtime_s)).collect();
     gotv.sort();
